@@ -358,9 +358,23 @@ HandleUeNasO(amf, i, t, ngapMsg, o) ==
                                \* under the next downlink COUNT
                                withMsg == "setupMsgNas" \in DOMAIN ch /\ ch.setupMsgNas
                                extra == DlProtect(dlt.sec, NasEncode(Mk5GMM("Status5GMM", << <<111>> >>, <<>>)), 2)
-                               c2 == [c1 EXCEPT !.sec = IF withMsg THEN extra.sec ELSE dlt.sec, !.sess = "setup", !.psi = psiHdr, !.pti = pti, !.await = @ \cup {"SUResp"}] IN
-                           Res(SetCtx(amf, i, c2), << NgapEncode(PduSetupRequest(c2, ch, psiHdr, dlt.bytes, IF withMsg THEN extra.bytes ELSE <<>>)) >>,
-                               common \cup (IF c.sess \in {"none", "released"} THEN {} ELSE {who \o ": PDU session establishment while a session is " \o c.sess})
+                               c2 == [c1 EXCEPT !.sec = IF withMsg THEN extra.sec ELSE dlt.sec, !.sess = "setup", !.psi = psiHdr, !.pti = pti, !.await = @ \cup {"SUResp"}]
+                               \* optionally (ch.setupFill = n > 0) the SMF's QoS rules are stretched or shortened until the whole NGAP message is
+                               \* exactly n octets long - 2048 is the largest message the emulator's receive buffer holds
+                               fill == Pick(ch, "setupFill", 0)
+                               FillBuild(chx) == LET inn == NasEncode(NasPduAccept(chx, psiHdr, pti))
+                                                 dlp == DlProtect(c1.sec, NasEncode(NasDlTransport(inn, psiHdr)), 2)
+                                                 ex == DlProtect(dlp.sec, NasEncode(Mk5GMM("Status5GMM", << <<111>> >>, <<>>)), 2)
+                                             IN NgapEncode(PduSetupRequest(c2, chx, psiHdr, dlp.bytes, IF withMsg THEN ex.bytes ELSE <<>>))
+                               Adj(chx, n) == IF n >= 0 THEN [chx EXCEPT !.qosRules = @ \o [x \in 1..n |-> (x * 37) % 256]]
+                                              ELSE [chx EXCEPT !.qosRules = SubSeq(@, 1, Len(@) + n)]
+                               b0 == NgapEncode(PduSetupRequest(c2, ch, psiHdr, dlt.bytes, IF withMsg THEN extra.bytes ELSE <<>>))
+                               ch1 == Adj(ch, fill - Len(b0))
+                               ch2 == Adj(ch1, fill - Len(FillBuild(ch1)))
+                               out == IF fill = 0 THEN b0 ELSE FillBuild(ch2) IN
+                           Res(SetCtx(amf, i, c2), << out >>,
+                               common \cup (IF fill = 0 \/ Len(out) = fill THEN {} ELSE {"HARNESS: the setup request could not be brought to " \o ToString(fill) \o " octets"})
+                                      \cup (IF c.sess \in {"none", "released"} THEN {} ELSE {who \o ": PDU session establishment while a session is " \o c.sess})
                                       \cup (IF NasOpt(m, 34).has /\ NasOpt(m, 34).v = (IF Len(Cfg.sd) = 3 THEN <<Cfg.sst>> \o Cfg.sd ELSE <<Cfg.sst>>) THEN {}
                                             ELSE {who \o ": S-NSSAI " \o ToString(NasOpt(m, 34).v) \o " is not the configured SST/SD"})
                                       \cup (IF NasOpt(m, 128).has /\ NasOpt(m, 128).v[1] % 8 = 1 THEN {} ELSE {who \o ": request type is not initial request"}),
